@@ -534,7 +534,7 @@ def garbage_plan(K, ctx, prop):
 # ------------------------------------------------------------------------------------------------ C06 / C07
 def eqhash_plan(K, ctx, prop):
     quick = ctx.tier == "quick"
-    reps = 4 if quick else 8
+    reps = 4 if quick else 5
     cfg = ("SPECIFICATION Spec\n" + consts(DEPTH=2, TIER=f'"{ctx.tier}"', SEEDS=16, SEED=ctx.seed, ORDERED_HASH="FALSE") +
            "INVARIANT EqIsSemantic\nINVARIANT EqSymmetric\nINVARIANT EqReflexive\nINVARIANT EqualHashEqual\nINVARIANT Emit\nCHECK_DEADLOCK FALSE\n")
     rnd = random.Random(ctx.seed)
@@ -642,9 +642,17 @@ def plan_c16(K, ctx):
     open(cmds, "w", encoding="utf-8").write("".join(l + "\n" for l in lines))
     K.account(ctx, cmds, nontrivial_value)
     K.run_exec(ctx, cmds, obs)
-    K.parallel([lambda: K.run_judge(ctx, "J_C16", "ascii", obs, "c16_global_judge", shards=0, env_extra={"NV_C16_MODE": "global"}),
+    # two values can only share a text if they share its multiset of characters: the history judge is sharded by that (and an observation
+    # whose renderings differ in it goes to every shard concerned), so every pair of equal texts still meets in one judge
+    import zlib
+
+    def text_keys(o):
+        ts = [t["s"] for t in o["o"].get("texts", []) if t.get("r") == "ok"]
+        return {zlib.crc32("".join(sorted(t)).encode("utf-8")) for t in ts} or {0}
+    K.parallel([lambda: K.run_judge(ctx, "J_C16", "ascii", obs, "c16_global_judge", shards=2 if quick else 12, env_extra={"NV_C16_MODE": "global"},
+                                    shard_keys=text_keys),
                 lambda: K.run_judge(ctx, "J_C16", "ascii", obs, "c16_local_judge", shards=6, env_extra={"NV_C16_MODE": "local"})], max_workers=2)
-    ctx.judged //= 2          # the same observations went through both judges
+    ctx.judged = sum(1 for _ in open(obs, encoding="utf-8"))          # the same observations went through both judges
     return {
         "note": "Typst.tla: layout by arity on the dumped markup constants. TLC checks that every model rendering is whitespace-normalised and "
                 "that rendering is injective on the whole universe (cardinality of the image = cardinality of the universe): U1, atoms, late-"
@@ -764,6 +772,35 @@ def plan_c03(K, ctx):
             K.run_judge(ctx, "J_Pipe", fmt, obs, f"c03_{fmt}_judge", shards=3 if quick else 6)
         return run
     K.parallel([one(f) for f in K.FORMATS])
+    # (d) texts generated from arity-valid lexical values (C02's universe: every connecter arity, both set brackets, all 13 copulas, signed /
+    # zero-padded fixed stamps, odd number spellings), written by the real lexical formatter, through both pipelines
+    lcfg = ("SPECIFICATION Spec\n" + consts(TIER=f'"{ctx.tier}"', SEEDS=16, SEED=ctx.seed) + "INVARIANT Emit\nCHECK_DEADLOCK FALSE\n")
+
+    vocab = json.load(open(os.path.join(ctx.rundir, "vocab.json"), encoding="utf-8"))
+
+    def arity_valid(x, conn):
+        """C03 speaks of ARITY-VALID lexical values: negation has one component, a difference two (the fold is lenient about more)"""
+        if isinstance(x, dict):
+            if x.get("k") == "Compound":
+                n = len(x["terms"])
+                if (x["connecter"] == conn["Negation"] and n != 1) or (x["connecter"] in (conn["DifferenceExtension"], conn["DifferenceIntension"]) and n != 2):
+                    return False
+            return all(arity_valid(y, conn) for y in x.values())
+        if isinstance(x, list):
+            return all(arity_valid(y, conn) for y in x)
+        return True
+
+    def to_pipe_l(c):
+        v = c["v"]
+        s = v["v"] if v["kind"] == "sentence" else v["v"]["sentence"] if v["kind"] == "task" else None
+        if s is not None and (len(s["truth"]) > 2 or (v["kind"] == "task" and len(v["v"]["budget"]) > 3)):
+            return None
+        if not arity_valid(v, vocab["enum"][c["fmt"]]["conn"]):
+            return None
+        c["op"] = "pipe_l"
+        return c
+    K.parallel([(lambda f=f: K.pipeline(ctx, f, "c03lex", "MC_C02", lcfg, "J_Pipe", lambda c: True, workers=5, transform=to_pipe_l,
+                                        shards=5 if ctx.tier == "thorough" else 2)) for f in K.FORMATS])
     exotic_stage(K, ctx, "c03exotic", "pipe_v", "J_Pipe")
     random_stage(K, ctx, "c03rand", lambda r, f: [dict({"op": "pipe_v", "fmt": f, "v": r["v"], "rand": True}, **({} if spellable(K, ctx, r["v"]) else {"exotic": True}))], "J_Pipe", nontrivial=nontrivial_value,
                  shards=2 if ctx.tier == "quick" else 6)
